@@ -14,9 +14,10 @@ Decided (clang AST of all engine TUs; all-paths exploration with correlated pred
                    no element store / non-const alias / non-const pass rooted at scn->geoms outside a validated producer
                    (idiom: the free in mjv_freeScene followed by the scene-zeroing call); status raised only by a producer
   R-PAIR           typestate on all paths of every caller: release only of a held (acquired and non-NULL) pointer, never
-                   twice, never untested; a held pointer ends in exactly one release or in an explicit jump out of the
-                   iteration (`continue` / `break` / early `return`: abandoned slot, re-initialised by the next acquire);
-                   it is never overwritten by a new acquire and never reaches the end of the function
+                   twice, never untested, never after a failed acquire; every acquire site reaches a release on some
+                   path (a held slot may be abandoned on other paths: ngeom is not advanced and the next acquire
+                   re-initialises the slot — the `if (alpha == 0) continue;` idiom — so only a site that can never be
+                   released is a lost geom)
   R-LIGHTS         `scn->lights + scn->nlight` is formed only where `scn->nlight < K <= extent(lights)` is known on the path;
                    nlight / lights are written only in such functions
 Not decided: that the emitted geoms are the enabled model geoms with the simulated pose; flex/skin vertex buffers (their
@@ -33,10 +34,14 @@ ANCHOR = "acquireGeom"
 VIS = "src/engine/engine_vis_visualize.c"
 
 # hand-confirmed on the pinned tree
-FLOOR_SITES = 40          # acquireGeom call sites in engine_vis_visualize.c
-FLOOR_RELEASE = 40        # releaseGeom call sites
-FLOOR_ABANDON = 4         # `if (thisgeom->rgba[3] == 0) continue;` in addFlexGeoms/addSkinGeoms/addGeomGeoms/addSiteGeoms
-FLOOR_WRITES = 7          # ngeom: ++ (release), = 0 (updateScene); maxgeom, geoms (makeScene); free(geoms); alias (acquire); status
+# hand counts on the pinned tree: 40 acquireGeom call sites, 40 releaseGeom call sites, 4 abandon-by-continue idioms
+# (`if (thisgeom->rgba[3] == 0) continue;` in addFlexGeoms/addSkinGeoms/addGeomGeoms/addSiteGeoms), 7 non-read accesses
+# (ngeom: ++ in release, = 0 in updateScene; maxgeom, geoms in makeScene; free(geoms); alias in acquire; status).
+# Floors sit a little below so that a removed instance is reported by its rule rather than by the floor; the abandon
+# idiom is only counted (removing it is a legitimate edit).
+FLOOR_SITES = 36
+FLOOR_RELEASE = 36
+FLOOR_WRITES = 6
 
 # callee -> reason: a non-const pass of scn->geoms that is not a slot write
 PASS_IDIOMS = {
@@ -147,11 +152,15 @@ def run(res, tier):
     # ------------------------------------------------------------------ call sites: R-NULLABLE + R-PAIR
     res.rule("R-NULLABLE", "every acquired geom pointer is null-tested (that value) before any use and never used when NULL",
              floor=FLOOR_SITES)
-    res.rule("R-PAIR", "release only of a held pointer, once; a held pointer is released or explicitly abandoned by a jump, "
-             "never overwritten or dropped at the end", floor=FLOOR_SITES + FLOOR_RELEASE)
+    res.rule("R-PAIR", "release only of a held pointer, at most once per path; every acquire site reaches a release on some path",
+             floor=FLOOR_SITES + FLOOR_RELEASE)
     nabandon = 0
     producers = set(acquires)
-    rel = dict(release_idx)
+    # callers are analysed against every function with the release signature (a function that bumps ngeom without a
+    # mjvGeom** parameter is already reported by R-RELEASE-SHAPE / R-WHO-WRITES and is not a release for the typestate)
+    rel = {n: i for n, i in release_idx.items() if i is not None}
+    if not rel:
+        raise AnalysisError("no function with the release signature (mjvGeom**, mjvScene*) increments ngeom")
     for _round in range(4):
         caller_tus = sorted(tu for tu, f in facts.items() if set(f["geom_callees"]) & (producers | set(rel)))
         nullable, pairs = {}, {}
@@ -174,6 +183,12 @@ def run(res, tier):
             break
     else:
         raise AnalysisError("acquire/release wrapper inference did not converge")
+    for tu in caller_tus:
+        for name, s in pairs[tu].items():
+            for callee, var, where in s["escapes"]:
+                if callee not in rel:
+                    raise AnalysisError(f"{name}: address of geom pointer `{var}` passed to {callee}() at {where}, which is "
+                                        f"not a release function or an inferred release wrapper")
     res.extra["producers"] = sorted(producers)
     res.extra["release_functions"] = sorted(rel)
     for tu in caller_tus:
@@ -236,9 +251,6 @@ def run(res, tier):
             for rps in list(by_site.values()) + list(by_rsite.values()) + ([other] if other else []):
                 res.bad("R-PAIR", f"{name}:{rps[0].get('kind')}", rps[0]["file"], rps[0]["line"], rps[0]["msg"])
     res.count("abandoned_slots", nabandon)
-    if nabandon < FLOOR_ABANDON:
-        raise AnalysisError(f"only {nabandon} abandon-by-jump idioms seen (floor {FLOOR_ABANDON}): the pairing rule lost "
-                            f"coverage")
 
     # ------------------------------------------------------------------ R-WHO-WRITES
     res.rule("R-WHO-WRITES", "ngeom / maxgeom / geoms / status of mjvScene are written only by release, reset, the allocator "
@@ -384,4 +396,4 @@ def run(res, tier):
                        "scn->geoms directly (outside src/engine/*.c).")
     res.assumptions = ["error handlers (mju_error, mjERROR) do not return",
                        "plugin visualize callbacks and user code outside src/engine respect the same protocol",
-                       "a slot abandoned by continue/break/return is intentionally skipped (the next acquire re-initialises it)"]
+                       "abandoning an acquired slot on some paths is part of the protocol (the next acquire re-initialises it)"]
